@@ -26,8 +26,12 @@ thread_local! {
 
 fn gen_program(r: &mut Rng, tier: Tier) -> (Vec<u8>, &'static str) {
     let roll = r.below(100);
-    if roll < 15 {
+    if roll < 10 {
         (workload::gen_bytes(r), "bytes")
+    } else if roll < 18 {
+        (workload::gen_growth(r), "growth_chain")
+    } else if roll < 28 {
+        (workload::gen_const_use(r), "computed_constants")
     } else if roll < 50 {
         (workload::gen_stack(r, true), "stack_hostile")
     } else if roll < 60 {
@@ -185,7 +189,7 @@ impl Check for C01Check {
         CheckInfo {
             id: "C01",
             level: "exploration",
-            rule: "case = one generated program (random bytes 15%, hostile stack-aware 35%, stack-aware 10%, storage idioms 15%, control flow 10%, mutated/cut corpus contracts 15%) x knobs (default 50%, swarm 50%) x schedule (natural keys 50%, seeded adversarial 50%) x API shape (analyze 50%, staged prefix 20%, VM-then-typechecker incl. continue-on-partial-state 20%, phases 10%) x poisoned shared table 5%; one fault-free run (under a step budget) and, for 40% of the cases, one more run with a cancellation injected at a uniformly chosen poll of the measured run (sticky, or flapping 1 in 6). evaluations = simulated runs; non-trivial = the run executed a storage instruction and more than three VM steps, or folded a class with >= 2 pieces of evidence; distinct = distinct (program, fold-order or trace digest, cancellation point), counted with a hash set",
+            rule: "case = one generated program (random bytes 10%, value-growth chains 8%, computed boundary constants used as offsets/sizes/shift amounts/jump targets/slot keys 10%, hostile stack-aware 22%, stack-aware 10%, storage idioms 15%, control flow 10%, mutated/cut corpus contracts 15%) x knobs (default 50%, swarm 50%) x schedule (natural keys 50%, seeded adversarial 50%) x API shape (analyze 50%, staged prefix 20%, VM-then-typechecker incl. continue-on-partial-state 20%, phases 10%) x poisoned shared table 5%; one fault-free run (under a step budget) and, for 40% of the cases, one more run with a cancellation injected at a uniformly chosen poll of the measured run (sticky, or flapping 1 in 6). evaluations = simulated runs; non-trivial = the run executed a storage instruction and more than three VM steps, or folded a class with >= 2 pieces of evidence; distinct = distinct (program, fold-order or trace digest, cancellation point), counted with a hash set",
             assumptions: &[
                 "panics are caught with catch_unwind in the worker; aborts, stack overflows (8 MiB stack) and address-space exhaustion (3 GiB) kill the worker and are attributed to the announced case by the parent",
                 "the harness build uses the repository's release settings: overflow-checks on, debug-assertions off",
